@@ -571,7 +571,10 @@ class FileGen:
             # non-ASCII text: one byte per letter in bk/koi8-r/cp866, two in utf-8 -> parity unknown here
             n = rng.randint(1, 6)
             word = "".join(rng.choice("АБВГДЕЖЗИКЛМНОПРСТУФабвгдежзиклмн") for _ in range(n))
-            out.append(Stmt('%s "%s"' % (rng.choice([".ascii", ".asciz"]), word), "ascii-cyr"))
+            chunk = ""
+            if rng.random() < 0.5:
+                chunk = "<%s>" % self.plain_expr("byte").text        # possibly a constant defined later
+            out.append(Stmt('%s "%s"%s' % (rng.choice([".ascii", ".asciz"]), word, chunk), "ascii-cyr"))
             self.even = None
         elif k < 0.64:
             text, nbytes = self.ascii_stmt()
@@ -1073,11 +1076,15 @@ class Gen:
             tape = None
             if rng.random() < 0.6:
                 stem = rng.choice(["out", "OUT", "res.ult", "game", "a b", "x"]) + str(rng.randint(0, 9))
+                if rng.random() < 0.06:
+                    stem = rng.choice(["~dump", "~tmp", "~dump x"])      # '~name' that is not a registered device
                 ext = rng.choice([".bin", ".raw", ".wav", ".BIN", "", ".dat", ".WAV"])
                 sub = rng.choice(["", "", "", "build/", "../", "nodir/"])
                 path_arg = sub + stem + ext
                 if not os.path.normpath(os.path.join(os.path.dirname(gf.path), path_arg)).startswith(SIMROOT + "/"):
                     path_arg = stem + ext       # never name a path outside the simulated root
+                if rng.random() < 0.04:
+                    path_arg = rng.choice(["~dump", "~tmp", "~dump x"])     # device-like name, ordinary file
                 if rng.random() < 0.1:
                     path_arg = os.path.normpath(os.path.join(os.path.dirname(gf.path), path_arg))
             text = kind
